@@ -266,6 +266,11 @@ class Interp:
             r = s.alloc(64, name + '(model)')
             for k in range(8): s.store(Ptr(r.obj, 8 * k), Ptr(vt.obj, 64), 8)
             s.gaddr[name] = r; return r
+        if re.match(r'^@_ZTI[a-z]$', name):
+            # type_info of a fundamental type lives in libsupc++ (external): { vptr, name } with the one-letter mangled name
+            r = s.alloc(16, name + '(model)'); s.zerofill(r, 16)
+            nm = s.alloc(2, name + '-name(model)'); s.store(Ptr(nm.obj, 0), ord(name[-1]), 1); s.store(Ptr(nm.obj, 1), 0, 1)
+            s.store(Ptr(r.obj, 8), nm, 8); s.gaddr[name] = r; return r
         rest = s.m.globals.get(name)
         if rest is None: raise Unsupported('unknown global ' + name)
         toks = tokenize(rest); p = P(toks)
